@@ -117,11 +117,25 @@ def _get(d, j):
 
 
 def flag_falsy_variants(es4) -> list:
-    """For a kind assignment: [no falsy token] + [every flag source falsy at the flag's path] when flags exist."""
-    fl = [(i, path) for (i, j, kind, path) in es4 if kind == "flag"]
-    out = [[]]
-    if fl:
-        out.append([[i, list(path)] for i, path in fl])
+    """For a kind assignment: every subset of the flag uses is falsy (a token is falsy at (source, path))."""
+    fl = []
+    for (i, j, kind, path) in es4:
+        if kind == "flag" and [i, list(path)] not in fl:
+            fl.append([i, list(path)])
+    out = []
+    for k in range(len(fl) + 1):
+        for sub in itertools.combinations(fl, k):
+            out.append([list(x) for x in sub])
+    return out
+
+
+def cflag_variants(n: int) -> list:
+    """Constant activation flags: none, or one node carrying twz_active=False / True."""
+    out = [{}]
+    for i in range(n):
+        out.append({i: False})
+    for i in range(n):
+        out.append({i: True})
     return out
 
 
